@@ -117,7 +117,7 @@ func (s scen) run(c *hx.Ctx) *hx.ScenarioResult {
 		}
 		sched.Finish()
 	}
-	return hx.ExploreScenario(c, "C04", s.name(), sched.Options{Bound: s.bound, MaxSteps: 100000, BoundAll: true, NoEarlyClock: true}, body, s.judge)
+	return hx.ExploreScenario(c, "C04", s.name(), sched.Options{Bound: s.bound, MaxSteps: 100000, BoundAll: true, NoEarlyClock: true, HoldBack: true}, body, s.judge)
 }
 
 type invokeEvent struct {
